@@ -125,7 +125,9 @@ CATALOGUE_VALUES = [None, True, False, 0, 1, 1234, -1, 2 ** 70, 0.5, "", "A", "A
                     # near misses of the enumerated strings: other spellings are other (unknown) values
                     "cross_platform", "crossPlatform", "CROSS-PLATFORM", "Platform", " platform", "platform ", "plat-form",
                     "public_key", "Public-Key", "publickey", "USB", "internal ", "Hybrid",
-                    {}, {"a": 1}, {"status": "x"}, "a b", "=", "AQID=", "-_-_"]
+                    {}, {"a": 1}, {"status": "x"}, "a b", "=", "AQID=", "-_-_",
+                    # strings holding an unpaired surrogate (legal JSON text: "\ud800"): they are strings like any other
+                    "x\ud800y", "\udc80", "AQID\udfff"]
 
 
 def systematic(kind):
@@ -200,16 +202,44 @@ def work(tasks, idx):
                 v, shape = gen(rng, kind)
             code_d = code_parse(kind, v)
             res.evaluations += 1
+            in_model = True
             try:
                 jv = to_jval(v)
+            except OutOfModel:
+                # values the model's JSON type cannot hold (unpaired surrogates): the property's own relations are still judged
+                # on the real code below
+                in_model = False
+                res.out_of_model += 1
+            try:
                 text = json.dumps(v)
-            except (OutOfModel, ValueError):
+            except ValueError:
                 res.out_of_model += 1
                 continue
-            tie.check({"op": "parse_cred_json", "kind": kind, "value": jv}, code_d, label=shape)
+            if in_model:
+                tie.check({"op": "parse_cred_json", "kind": kind, "value": jv}, code_d, label=shape)
             code_t = code_parse(kind, text)
             res.evaluations += 1
-            tie.check({"op": "parse_cred_json", "kind": kind, "text": text}, code_t, label=["text"] + shape)
+            if in_model:
+                tie.check({"op": "parse_cred_json", "kind": kind, "text": text}, code_t, label=["text"] + shape)
+            # JSON text in which a member name occurs twice (hand-written or proxied JSON): the text means what `json.loads`
+            # makes of it, so the text and that dict must give the same result
+            if isinstance(v, dict) and "type" in v and (n < 0 and it % 5 == 0 or n >= 0 and rng.random() < 0.05):
+                for dup, dl in ((text[:-1] + ', "type": ' + json.dumps(v["type"]) + "}", "type-twice-same-value"),
+                                (text[:-1] + ', "clientExtensionResults": {"a": 1, "a": 1}}', "repeat-inside-ignored-member"),
+                                ('{"id": "ignored-first-occurrence", ' + text[1:], "id-twice-last-wins")):
+                    try:
+                        as_dict = json.loads(dup)
+                    except ValueError:
+                        continue
+                    c_text, c_dict = code_parse(kind, dup), code_parse(kind, as_dict)
+                    res.evaluations += 2
+                    res.count(f"{kind}:repeated-member:" + corr.kind(c_text))
+                    if in_model:
+                        tie.check({"op": "parse_cred_json", "kind": kind, "text": dup}, c_text, label=["repeated-member", dl])
+                    if corr.kind(c_text) != corr.kind(c_dict) or c_text.get("record") != c_dict.get("record"):
+                        res.violations.append({"why": f"text with a repeated member name ({dl}) and the dict json.loads makes of it give different results",
+                                               "value": dup[:600], "dict": c_dict, "text": c_text,
+                                               "match": {"op": "parse_cred_json", "kind": kind, "relation": "text-vs-dict"}})
             res.nontrivial.add((kind, text))
             res.count(f"{kind}:" + corr.kind(code_d))
             # the property on the real code: text and dict agree; never a non-library error; fidelity on accept
